@@ -316,8 +316,6 @@ pub proof fn lemma_remove_enum(w: World, a: Address, r: Symbol)
 }
 
 // ---- exact successor states of the public role operations ----
-pub open spec fn w_auth(w: World, a: Address) -> World { World { auths: w.auths.insert(a), ..w } }
-pub open spec fn w_event(w: World, ev: SV) -> World { World { events: w.events.push(ev), ..w } }
 
 // ---- two-step transfer: exact successor states ----
 pub open spec fn offer_post<K: ToSV>(w: World, k: K, new: Address, live: u32) -> World {
